@@ -135,8 +135,13 @@ func (c *Ctx) RunSharded(cases []json.RawMessage, o ShardOpts) error {
 			defer wg.Done()
 			pending := shards[si].idx
 			round, crashFindings := 0, 0
+			solo := false // the next round runs one case alone: the shard ran out of time on it
 			for len(pending) > 0 {
 				round++
+				rest := pending
+				if solo {
+					pending = pending[:1]
+				}
 				in := filepath.Join(dir, fmt.Sprintf("s%d-%d.in", si, round))
 				out := filepath.Join(dir, fmt.Sprintf("s%d-%d.out", si, round))
 				f, err := os.Create(in)
@@ -160,12 +165,15 @@ func (c *Ctx) RunSharded(cases []json.RawMessage, o ShardOpts) error {
 				bw.Flush()
 				f.Close()
 				budget := time.Duration(len(pending))*o.PerCase/4 + 60*time.Second
+				if solo {
+					budget = 10*o.PerCase + 120*time.Second
+				}
 				ctx, cancel := context.WithTimeout(context.Background(), budget)
 				cmd := exec.CommandContext(ctx, bin, "worker", o.Worker, in, out)
 				cmd.Env = append(os.Environ(), o.Env...)
 				var stderr strings.Builder
 				cmd.Stderr = &limitedWriter{w: &stderr, n: 1 << 16}
-				runErr := cmd.Run()
+				_ = cmd.Run()
 				timedOut := ctx.Err() != nil
 				cancel()
 				// read results
@@ -196,12 +204,24 @@ func (c *Ctx) RunSharded(cases []json.RawMessage, o ShardOpts) error {
 					}
 					of.Close()
 				}
-				if runErr == nil && done == len(pending) {
-					return
-				}
 				if done >= len(pending) {
-					return
+					if !solo {
+						return
+					}
+					pending, solo = rest[1:], false
+					continue
 				}
+				if timedOut && !solo {
+					// the time limit of the whole shard ran out while this case was running: that says little about
+					// the case; it gets a run of its own before anything is concluded
+					pending, solo = rest[done:], true
+					continue
+				}
+				if solo {
+					pending = rest
+					done = 0
+				}
+				solo = false
 				// the worker died or hung on case pending[done]
 				how := "worker process died"
 				if timedOut {
